@@ -14,7 +14,7 @@ import (
 	"time"
 
 	"verifharness/core"
-	_ "verifharness/props"
+	"verifharness/props"
 	"verifharness/ref"
 )
 
@@ -24,6 +24,9 @@ func main() {
 		os.Exit(64)
 	}
 	switch os.Args[1] {
+	case "firstcall": // one library call as the first use of the library in this process (C11)
+		i, _ := strconv.Atoi(os.Args[2])
+		fmt.Println(props.FirstCall(i))
 	case "list":
 		for id := range core.Props {
 			fmt.Println(id)
